@@ -643,6 +643,19 @@ struct ClientSpec {
     via_endpoint_new: bool,
     /// what the platform trusts (SSL_CERT_FILE) while the endpoint is configured
     native: Native,
+    /// Endpoint::origin(..) called before / after tls_config
+    origin_before: Option<&'static str>,
+    origin_after: Option<&'static str>,
+}
+fn coq_origin(o: Option<&str>) -> String {
+    match o {
+        None => "None".into(),
+        Some(u) => format!(
+            "(Some ({}, Some {}))",
+            coq_scheme(u),
+            if u.ends_with("example.test") { "DExample" } else { "DOther" }
+        ),
+    }
 }
 #[derive(Clone, Copy, PartialEq, Eq, Debug)]
 enum Native {
@@ -691,10 +704,13 @@ where
     let ep = if client.via_endpoint_new {
         Endpoint::new(client.uri.clone())
     } else {
-        Endpoint::from_shared(client.uri.clone()).and_then(|e| match client.tls.clone() {
-            Some(c) => e.tls_config(c),
-            None => Ok(e),
-        })
+        Endpoint::from_shared(client.uri.clone())
+            .map(|e| match client.origin_before { Some(o) => e.origin(o.parse().unwrap()), None => e })
+            .and_then(|e| match client.tls.clone() {
+                Some(c) => e.tls_config(c),
+                None => Ok(e),
+            })
+            .map(|e| match client.origin_after { Some(o) => e.origin(o.parse().unwrap()), None => e })
     };
     let ep = match ep {
         Ok(e) => e,
@@ -908,7 +924,7 @@ fn cell_client(pki: &Pki, c: &Cell) -> ClientSpec {
         _ => {}
     }
     t = t.assume_http2(c.assume == 1);
-    ClientSpec { uri: ["https://example.test", "https://other.test"][c.host as usize].to_string(), tls: Some(t), via_endpoint_new: false, native: Native::Ca1 }
+    ClientSpec { uri: ["https://example.test", "https://other.test"][c.host as usize].to_string(), tls: Some(t), via_endpoint_new: false, native: Native::Ca1, origin_before: None, origin_after: None }
 }
 /// mode 0: tonic's acceptor where it can express the cell (ALPN h2), the stub otherwise;
 /// mode 1: the stub also for ALPN h2 (cross-validation of the stub against tonic's acceptor);
@@ -1017,6 +1033,24 @@ fn run_cell_mode(out: &mut Out, pki: &Pki, c: &Cell, kind: &str, mode: u8, same_
     t
 }
 
+/// the cell with Endpoint::origin pointing at the host the URI does NOT name, set before or
+/// after tls_config: nothing may change
+fn run_cell_origin(out: &mut Out, pki: &Pki, c: &Cell, before: bool) {
+    let other = if c.host == 0 { "https://other.test" } else { "https://example.test" };
+    let mut cl = cell_client(pki, c);
+    if before { cl.origin_before = Some(other) } else { cl.origin_after = Some(other) }
+    let o = run_call(cl, cell_server(pki, c), TcpPipe);
+    let mut oracle = cell_oracle(pki, c, &o);
+    if o.class == Class::Unclassified && oracle.is_none() {
+        oracle = Some(format!("unrecognised failure: {}", o.err_text));
+    }
+    let mut input = c.json();
+    input["origin"] = json!({"uri": other, "set": if before { "before tls_config" } else { "after tls_config" }});
+    input["observed"] = json!({"connect_ok": o.connect_ok, "rpc_ok": o.rpc_ok, "handler_runs": o.seen.len(), "error": o.err_text.chars().take(300).collect::<String>()});
+    let (ob, oa) = if before { (coq_origin(Some(other)), "None".to_string()) } else { ("None".to_string(), coq_origin(Some(other))) };
+    out.push(Case { kind: "cell.origin".into(), input, model: format!("obs_cell_origin {} {} {}", ob, oa, c.coq()), impl_obs: call_tr(pki, &o), oracle, nontrivial: true });
+}
+
 /// quick tier: a pairwise-covering set plus a seeded sample, at least `want` cells
 fn quick_slice(r: &mut Rng, want: usize) -> Vec<Cell> {
     let mut cells = all_cells();
@@ -1078,7 +1112,7 @@ fn corpus(out: &mut Out, pki: &Pki) {
         for with_tls in [false, true] {
             for plain_srv in [false, true] {
                 let (srv, srv_coq) = if plain_srv { (ServerSpec::Plain, "SPlain".to_string()) } else { tonic_srv(pki, false, false) };
-                let client = ClientSpec { uri: uri.into(), tls: if with_tls { Some(right()) } else { None }, via_endpoint_new: false, native: Native::Ca1 };
+                let client = ClientSpec { uri: uri.into(), tls: if with_tls { Some(right()) } else { None }, via_endpoint_new: false, native: Native::Ca1, origin_before: None, origin_after: None };
                 let o = run_call(client, srv, TcpPipe);
                 let https = uri.starts_with("https");
                 let ran = !o.seen.is_empty();
@@ -1119,7 +1153,7 @@ fn corpus(out: &mut Out, pki: &Pki) {
     for native in [Native::Ca1, Native::Ca2, Native::Empty] {
         for (uri, plain_srv) in [("https://example.test", false), ("https://example.test", true), ("http://example.test", true)] {
             let (srv, srv_coq) = if plain_srv { (ServerSpec::Plain, "SPlain".to_string()) } else { tonic_srv(pki, false, false) };
-            let o = run_call(ClientSpec { uri: uri.into(), tls: None, via_endpoint_new: true, native }, srv, TcpPipe);
+            let o = run_call(ClientSpec { uri: uri.into(), tls: None, via_endpoint_new: true, native, origin_before: None, origin_after: None }, srv, TcpPipe);
             let https = uri.starts_with("https");
             let ran = !o.seen.is_empty();
             let oracle = if https && (contains_preface(&o.wire) || (ran && (plain_srv || native != Native::Ca1))) {
@@ -1166,7 +1200,7 @@ fn corpus(out: &mut Out, pki: &Pki) {
     for (name, cfg, coq, may_serve) in variants {
         let (srv, srv_coq) = tonic_srv(pki, false, false);
         // the platform trusts CA2 only here: with_enabled_roots switches the platform set on
-        let o = run_call(ClientSpec { uri: "https://example.test".into(), tls: Some(cfg), via_endpoint_new: false, native: Native::Ca2 }, srv, TcpPipe);
+        let o = run_call(ClientSpec { uri: "https://example.test".into(), tls: Some(cfg), via_endpoint_new: false, native: Native::Ca2, origin_before: None, origin_after: None }, srv, TcpPipe);
         let oracle = if !may_serve && !o.seen.is_empty() {
             Some("a handler ran although CA1 is not among the configured roots".to_string())
         } else if contains_preface(&o.wire) {
@@ -1186,7 +1220,7 @@ fn corpus(out: &mut Out, pki: &Pki) {
     // --- a domain that is not a DNS name is refused when the endpoint is configured
     {
         let (srv, srv_coq) = tonic_srv(pki, false, false);
-        let o = run_call(ClientSpec { uri: "https://example.test".into(), tls: Some(right().domain_name("not a dns name!")), via_endpoint_new: false, native: Native::Ca1 }, srv, TcpPipe);
+        let o = run_call(ClientSpec { uri: "https://example.test".into(), tls: Some(right().domain_name("not a dns name!")), via_endpoint_new: false, native: Native::Ca1, origin_before: None, origin_after: None }, srv, TcpPipe);
         out.push(Case {
             kind: "corpus.bad_domain".into(),
             input: json!({"domain_name": "not a dns name!", "observed": {"cfg_err": o.cfg_err, "error": o.err_text}}),
@@ -1221,6 +1255,61 @@ fn corpus(out: &mut Out, pki: &Pki) {
             nontrivial: true,
         });
     }
+    // --- Endpoint::origin never names the peer: origin x order x domain x URI host x server cert
+    {
+        let origins: Vec<(Option<&'static str>, Option<&'static str>)> = vec![
+            (None, None),
+            (Some("https://example.test"), None), (None, Some("https://example.test")),
+            (Some("https://other.test"), None), (None, Some("https://other.test")),
+            (Some("http://other.test"), None), (None, Some("http://other.test")),
+            (Some("https://other.test"), Some("https://example.test")),
+            (Some("https://example.test"), Some("https://other.test")),
+        ];
+        for (ob, oa) in origins {
+            for dom in 0..3u8 {
+                for host in 0..2u8 {
+                    for scert in 0..2u8 {
+                        let mut t = ClientTlsConfig::new().ca_certificate(Certificate::from_pem(&pki.ca1));
+                        let mut t_coq = "(ca_certificate cfg0 CA1)".to_string();
+                        if dom < 2 {
+                            t = t.domain_name(["example.test", "other.test"][dom as usize]);
+                            t_coq = format!("(domain_name {} {})", t_coq, ["DExample", "DOther"][dom as usize]);
+                        }
+                        let uri = ["https://example.test", "https://other.test"][host as usize];
+                        let cert = if scert == 0 { pki.srv_example.clone() } else { pki.srv_other.clone() };
+                        let srv = ServerSpec::Tonic { cert, client_ca: None, optional: false };
+                        let o = run_call(ClientSpec { uri: uri.into(), tls: Some(t), via_endpoint_new: false, native: Native::Ca1, origin_before: ob, origin_after: oa }, srv, TcpPipe);
+                        let effective = if dom < 2 { dom } else { host };
+                        let mut oracle = None;
+                        if !o.seen.is_empty() && effective != scert {
+                            oracle = Some(format!(
+                                "a handler ran although the server certificate (SAN {}) matches neither the configured domain nor the URI host ({}); origin before/after tls_config = {:?}/{:?}",
+                                ["example.test", "other.test"][scert as usize], ["example.test", "other.test"][effective as usize], ob, oa));
+                        }
+                        if contains_preface(&o.wire) || !matches!(wire_class(&o.wire), 0 | 1) {
+                            oracle = Some("plaintext on an https endpoint (origin override)".into());
+                        }
+                        if o.class == Class::Unclassified || o.class == Class::Hang {
+                            oracle = Some(format!("unrecognised failure / hang: {}", o.err_text));
+                        }
+                        let dom_name: Option<&str> = if dom < 2 { Some(["example.test", "other.test"][dom as usize]) } else { None };
+                        let san_name = ["example.test", "other.test"][scert as usize];
+                        out.hist("origin.class", format!("{:?}", o.class));
+                        out.push(Case {
+                            kind: "corpus.origin".into(),
+                            input: json!({"uri": uri, "origin_before_tls_config": ob, "origin_after_tls_config": oa, "domain_name": dom_name,
+                                          "server_cert_san": san_name, "observed": {"class": format!("{:?}", o.class), "handler_runs": o.seen.len()}}),
+                            model: format!("obs_call_origin [CA1] {} {} Https (Some {}) {} (mk_srv {} None false)", coq_origin(ob), coq_origin(oa),
+                                           ["DExample", "DOther"][host as usize], t_coq, ["SrvExample", "SrvOther"][scert as usize]),
+                            impl_obs: call_tr(pki, &o),
+                            oracle,
+                            nontrivial: true,
+                        });
+                    }
+                }
+            }
+        }
+    }
     // --- H10: platform / webpki root sets are consulted only when switched on (the build has both
     //     features); SSL_CERT_FILE names what "the platform" trusts
     {
@@ -1242,7 +1331,7 @@ fn corpus(out: &mut Out, pki: &Pki) {
         for native in [Native::Ca1, Native::Ca2, Native::Empty] {
             for (name, mk, coq, explicit_ca1, platform_on) in &cfgs {
                 let (srv, srv_coq) = tonic_srv(pki, false, false);
-                let o = run_call(ClientSpec { uri: "https://example.test".into(), tls: Some(mk.clone()), via_endpoint_new: false, native }, srv, TcpPipe);
+                let o = run_call(ClientSpec { uri: "https://example.test".into(), tls: Some(mk.clone()), via_endpoint_new: false, native, origin_before: None, origin_after: None }, srv, TcpPipe);
                 let trusted = *explicit_ca1 || (*platform_on && native == Native::Ca1);
                 let oracle = if !o.seen.is_empty() && !trusted {
                     Some("a handler ran although the server's CA is neither configured nor in a root set the caller switched on".to_string())
@@ -1281,7 +1370,7 @@ fn corpus(out: &mut Out, pki: &Pki) {
         ];
         for (name, cfg, coq, webpki_on) in cfgs {
             let srv = ServerSpec::Tonic { cert: pki.srv_fake_public.clone(), client_ca: None, optional: false };
-            let o = run_call(ClientSpec { uri: "https://example.test".into(), tls: Some(cfg), via_endpoint_new: false, native: Native::Ca1 }, srv, TcpPipe);
+            let o = run_call(ClientSpec { uri: "https://example.test".into(), tls: Some(cfg), via_endpoint_new: false, native: Native::Ca1, origin_before: None, origin_after: None }, srv, TcpPipe);
             let oracle = if !o.seen.is_empty() {
                 Some("a handler ran for a server certificate that no root store can validate".to_string())
             } else if o.class == Class::BadSignature && !webpki_on {
@@ -1326,10 +1415,10 @@ fn corpus(out: &mut Out, pki: &Pki) {
             let has_tls = plan.tls.is_some();
             // (description, client, Gallina scheme, Gallina config, may a handler run against a TLS listener)
             let clients: Vec<(&str, ClientSpec, &str, String, bool)> = vec![
-                ("http:// client", ClientSpec { uri: "http://example.test".into(), tls: None, via_endpoint_new: false, native: Native::Ca1 }, "Http", "None".into(), false),
-                ("https client without identity", ClientSpec { uri: "https://example.test".into(), tls: Some(right()), via_endpoint_new: false, native: Native::Ca1 }, "Https", "(Some (ca_certificate cfg0 CA1))".into(), false),
-                ("https client with a certificate of the other CA", ClientSpec { uri: "https://example.test".into(), tls: Some(right().identity(Identity::from_pem(&pki.cli_ca1.0, &pki.cli_ca1.1))), via_endpoint_new: false, native: Native::Ca1 }, "Https", "(Some (identity (ca_certificate cfg0 CA1) CliCA1))".into(), false),
-                ("https client with a certificate of the client CA", ClientSpec { uri: "https://example.test".into(), tls: Some(right().identity(Identity::from_pem(&pki.cli_ca2.0, &pki.cli_ca2.1))), via_endpoint_new: false, native: Native::Ca1 }, "Https", "(Some (identity (ca_certificate cfg0 CA1) CliCA2))".into(), true),
+                ("http:// client", ClientSpec { uri: "http://example.test".into(), tls: None, via_endpoint_new: false, native: Native::Ca1, origin_before: None, origin_after: None }, "Http", "None".into(), false),
+                ("https client without identity", ClientSpec { uri: "https://example.test".into(), tls: Some(right()), via_endpoint_new: false, native: Native::Ca1, origin_before: None, origin_after: None }, "Https", "(Some (ca_certificate cfg0 CA1))".into(), false),
+                ("https client with a certificate of the other CA", ClientSpec { uri: "https://example.test".into(), tls: Some(right().identity(Identity::from_pem(&pki.cli_ca1.0, &pki.cli_ca1.1))), via_endpoint_new: false, native: Native::Ca1, origin_before: None, origin_after: None }, "Https", "(Some (identity (ca_certificate cfg0 CA1) CliCA1))".into(), false),
+                ("https client with a certificate of the client CA", ClientSpec { uri: "https://example.test".into(), tls: Some(right().identity(Identity::from_pem(&pki.cli_ca2.0, &pki.cli_ca2.1))), via_endpoint_new: false, native: Native::Ca1, origin_before: None, origin_after: None }, "Https", "(Some (identity (ca_certificate cfg0 CA1) CliCA2))".into(), true),
             ];
             for (cname, client, sch, ccoq, may) in clients {
                 let o = run_call(client, ServerSpec::Built { plan: plan.clone() }, TcpPipe);
@@ -1379,7 +1468,7 @@ fn corpus(out: &mut Out, pki: &Pki) {
         }
         // client side: a CA "certificate" without any PEM section adds no root
         let (srv, srv_coq) = tonic_srv(pki, false, false);
-        let o = run_call(ClientSpec { uri: "https://example.test".into(), tls: Some(ClientTlsConfig::new().ca_certificate(Certificate::from_pem(&garbage))), via_endpoint_new: false, native: Native::Ca1 }, srv, TcpPipe);
+        let o = run_call(ClientSpec { uri: "https://example.test".into(), tls: Some(ClientTlsConfig::new().ca_certificate(Certificate::from_pem(&garbage))), via_endpoint_new: false, native: Native::Ca1, origin_before: None, origin_after: None }, srv, TcpPipe);
         out.push(Case {
             kind: "corpus.pem".into(),
             input: json!({"ca_certificate": "no PEM section", "observed": {"class": format!("{:?}", o.class), "cfg_err": o.cfg_err}}),
@@ -1517,11 +1606,16 @@ fn main() {
             run_cell_mode(&mut out, &pki, c, "cell.stub_h2", 1, Some(&t));
             n_stub += 1;
         }
+        if c.dom == 2 && c.roots == 0 {
+            // where the name comes from the URI: an origin override naming the other host, set
+            // before (even cell index) or after tls_config, must change nothing
+            run_cell_origin(&mut out, &pki, c, (c.scert + c.alpn + c.assume + c.cauth + c.ident) % 2 == 0);
+        }
         distinct.insert(t);
     }
     out.finish(
         IMPORTS,
-        "cell: one real rustls handshake + unary call per cell of client roots{right,other,none} x domain{cfg example.test, cfg other.test, from URI} x URI host{example.test,other.test} x server cert SAN{example.test,other.test} x server ALPN{h2 (tonic's acceptor), none, http/1.1 (rustls acceptor configured like tonic's with the ALPN list replaced)} x assume_http2 x client-auth{none, none+optional flag, required, optional} x identity{none, client CA, other CA}; thorough = all 2592 cells, quick = pairwise-covering set + seeded sample (>= 864 cells); cell.stub_h2: every ALPN-h2 cell again on the rustls stub with ALPN h2, oracle = same observable as tonic's acceptor; corpus: scheme x tls config x plaintext/TLS server, Endpoint::new x SSL_CERT_FILE, root store composition, native/webpki root flags x SSL_CERT_FILE{CA1,CA2,empty} (build has both root features), Server builder calls (16 setters, layer before/after, all) around tls_config x {http client, https without identity, other-CA identity, valid identity}, PEM without certificates, invalid domain, connect-info type, acceptor without identity, server ALPN against bare rustls clients, hand-picked cells on a TLS 1.2-only listener. Distinct = distinct (kind, model expression).",
+        "cell: one real rustls handshake + unary call per cell of client roots{right,other,none} x domain{cfg example.test, cfg other.test, from URI} x URI host{example.test,other.test} x server cert SAN{example.test,other.test} x server ALPN{h2 (tonic's acceptor), none, http/1.1 (rustls acceptor configured like tonic's with the ALPN list replaced)} x assume_http2 x client-auth{none, none+optional flag, required, optional} x identity{none, client CA, other CA}; thorough = all 2592 cells, quick = pairwise-covering set + seeded sample (>= 864 cells); cell.origin: every run cell with right roots and the name taken from the URI again with Endpoint::origin naming the other host (before or after tls_config), same model verdict required; corpus.origin: origin{none, same, other, http other, both} x order x domain{unset,example,other} x URI host x server SAN; cell.stub_h2: every ALPN-h2 cell again on the rustls stub with ALPN h2, oracle = same observable as tonic's acceptor; corpus: scheme x tls config x plaintext/TLS server, Endpoint::new x SSL_CERT_FILE, root store composition, native/webpki root flags x SSL_CERT_FILE{CA1,CA2,empty} (build has both root features), Server builder calls (16 setters, layer before/after, all) around tls_config x {http client, https without identity, other-CA identity, valid identity}, PEM without certificates, invalid domain, connect-info type, acceptor without identity, server ALPN against bare rustls clients, hand-picked cells on a TLS 1.2-only listener. Distinct = distinct (kind, model expression).",
         json!({"matrix_cells_total": total, "matrix_cells_run": n, "exhaustive_matrix": a.thorough,
                "cells_on_tonic_acceptor": cells.iter().filter(|c| c.alpn == 0).count(), "stub_cross_validated_cells": n_stub,
                "distinct_cell_observables": distinct.len()}),
